@@ -79,8 +79,193 @@ let engine_line (cases : string) (hxout : string) =
     | [fl; h] -> print_endline (line_obs (oracle_of_string otxt) (int_of_string fl) (bytes_of_hex h))
     | _ -> print_endline "BADCASE")
 
+(* ---------------------------------------------------------------- mapper engine *)
+type cache = CLru of mresult option lru | CRr of mresult option rr
+
+let cache_get (c : cache) k = match c with
+  | CLru l -> let (r, l') = lru_get l k in (r, CLru l')
+  | CRr r0 -> let (r, r') = rr_get r0 k in (r, CRr r')
+let cache_add (c : cache) k v = match c with
+  | CLru l -> CLru (lru_add l k v)
+  | CRr r0 -> CRr (rr_add (fun _ -> O) r0 k v)
+let cache_reset (c : cache) = match c with CLru l -> CLru (lru_reset l) | CRr r -> CRr (rr_reset r)
+
+(* token reader *)
+type rd = { toks : string array; mutable pos : int }
+let next (r : rd) : string = let t = r.toks.(r.pos) in r.pos <- r.pos + 1; t
+let rd_int r = int_of_string (next r)
+let rd_z r = z_of_int (rd_int r)
+let rd_n r = n_of_int (rd_int r)
+let rd_bytes r = bytes_of_hex (next r)
+let rd_bool r = next r = "1"
+let rd_opt r f = match next r with "N" -> None | "S" -> Some (f r) | t -> failwith ("opt: " ^ t)
+let rd_list r f = let n = rd_int r in List.init n (fun _ -> f r)
+let rd_f r = f_of_hex (next r)
+let rd_optfl r = rd_opt r (fun r -> rd_list r rd_f)
+let rd_optqs r = rd_opt r (fun r -> rd_list r (fun r -> let q = rd_f r in let e = rd_f r in (q, e)))
+let rd_summ r : summ_ast =
+  let q = rd_optqs r in let ma = rd_z r in let ab = rd_n r in let bc = rd_n r in
+  { sa_quantiles = q; sa_max_age = ma; sa_age_buckets = ab; sa_buf_cap = bc }
+let rd_rule r : rule_ast =
+  let m = rd_bytes r in let nm = rd_bytes r in
+  let labels = rd_list r (fun r -> let k = rd_bytes r in let v = rd_bytes r in (k, v)) in
+  let honor = rd_bool r in
+  let ot = rd_opt r rd_bytes in let tt = rd_opt r rd_bytes in
+  let lb = rd_optfl r in let lq = rd_optqs r in
+  let mt = rd_opt r rd_bytes in let help = rd_bytes r in
+  let act = rd_opt r rd_bytes in let mmt = rd_opt r rd_bytes in let ttl = rd_z r in
+  let su = rd_opt r rd_summ in let hi = rd_opt r rd_optfl in let sc = rd_opt r rd_f in
+  { ra_match = m; ra_name = nm; ra_labels = labels; ra_honor = honor; ra_observer_type = ot;
+    ra_timer_type = tt; ra_legacy_buckets = lb; ra_legacy_quantiles = lq; ra_match_type = mt;
+    ra_help = help; ra_action = act; ra_mmt = mmt; ra_ttl = ttl; ra_summary = su; ra_hist = hi; ra_scale = sc }
+let rd_config r : config_ast =
+  match next r with
+  | "U" -> Unparsable
+  | "P" ->
+    let d = rd_opt r (fun r ->
+      let ot = rd_opt r rd_bytes in let tt = rd_opt r rd_bytes in let mt = rd_opt r rd_bytes in
+      let dis = rd_bool r in let ttl = rd_z r in let su = rd_summ r in let hb = rd_optfl r in
+      let lb = rd_optfl r in let lq = rd_optqs r in
+      { da_observer_type = ot; da_timer_type = tt; da_match_type = mt; da_disable_ordering = dis;
+        da_ttl = ttl; da_summary = su; da_hist = hb; da_legacy_buckets = lb; da_legacy_quantiles = lq }) in
+    let rules = rd_list r rd_rule in
+    Parsed (d, rules)
+  | t -> failwith ("config: " ^ t)
+
+let err_name = function
+  | EYaml -> "EYaml" | EEnum -> "EEnum" | ELabelKey -> "ELabelKey" | ENoName -> "ENoName"
+  | EBadName -> "EBadName" | EBadMatch -> "EBadMatch" | EBadRegex -> "EBadRegex"
+  | EBothQuantiles -> "EBothQuantiles" | EBothBuckets -> "EBothBuckets"
+  | EHistWithSummaryOpts -> "EHistWithSummaryOpts" | ESummWithHistOpts -> "ESummWithHistOpts"
+
+let rule_string (r : rule) (res : mresult) : string =
+  let ot = match r.ru_observer with ObsHistogram -> "h" | ObsSummary -> "s" | ObsDefault -> "d" in
+  let scale = match r.ru_scale with Some f -> hex_of_f f | None -> "-" in
+  let hb = match r.ru_hist with None -> "-"
+    | Some b -> "[" ^ String.concat "," (List.map hex_of_f b) ^ "]" in
+  let sq = match r.ru_summary with None -> "-"
+    | Some s -> Printf.sprintf "[%s]/%d/%d/%d"
+        (String.concat "," (List.map (fun (q, e) -> hex_of_f q ^ ":" ^ hex_of_f e) s.so_quantiles))
+        (int_of_z s.so_max_age) (int_of_n s.so_age_buckets) (int_of_n s.so_buf_cap) in
+  Printf.sprintf "Q %s %s %s ttl=%d drop=%d ot=%s honor=%d scale=%s hb=%s sq=%s mmt=%s" (hex_of_bytes r.ru_help)
+    (hex_of_bytes res.mr_name) (labels_string res.mr_labels) (int_of_z r.ru_ttl)
+    (if r.ru_drop then 1 else 0) ot (if r.ru_honor then 1 else 0) scale hb sq (hex_of_bytes r.ru_mmt)
+
+exception Oracle_miss2 of string
+
+let mapper_case (c : string) (ora : string) : string =
+  (* oracles *)
+  let compiles = Hashtbl.create 8 and matches = Hashtbl.create 16 and words = Hashtbl.create 8
+  and bts = Hashtbl.create 4 in
+  List.iter (fun tok ->
+    match String.split_on_char ':' tok with
+    | ["C"; h; b] -> Hashtbl.replace compiles h (b = "1")
+    | ["M"; re; m; g] ->
+      let groups = if g = "N" then None else
+        Some (List.map (fun x -> if x = "!" then None else Some (bytes_of_hex x)) (String.split_on_char ',' g)) in
+      Hashtbl.replace matches (re ^ ":" ^ m) groups
+    | ["W"; cp; b] -> Hashtbl.replace words (int_of_string cp) (b = "1")
+    | ["B"; oi; b] -> Hashtbl.replace bts (int_of_string oi) (b = "1")
+    | _ -> ()) (split_ws ora);
+  let uni_word (r : rune) = match Hashtbl.find_opt words (int_of_n r) with Some b -> b | None -> false in
+  let re_compiles (src : byte list) = match Hashtbl.find_opt compiles (hex_of_bytes src) with
+    | Some b -> b | None -> raise (Oracle_miss2 ("C:" ^ hex_of_bytes src)) in
+  let re_match (src : byte list) (m : byte list) = match Hashtbl.find_opt matches (hex_of_bytes src ^ ":" ^ hex_of_bytes m) with
+    | Some g -> g | None -> raise (Oracle_miss2 ("M:" ^ hex_of_bytes src ^ ":" ^ hex_of_bytes m)) in
+  let cur_op = ref 0 in
+  let heur_bt _ _ = match Hashtbl.find_opt bts !cur_op with Some b -> b | None -> false in
+  let ops = Str.split (Str.regexp_string " | ") c in
+  match ops with
+  | [] -> "BADCASE"
+  | hdr :: ops ->
+    let cache = match split_ws hdr with
+      | ["lru"; n] -> Some (CLru { lru_max = nat_of_int (int_of_string n); lru_items = [] })
+      | ["rr"; n] -> Some (CRr { rr_size = nat_of_int (int_of_string n); rr_items = [] })
+      | _ -> None in
+    let m = ref (new_mapper cache) in
+    let results = ref [] in
+    (try
+      List.iteri (fun oi op ->
+        cur_op := oi;
+        let toks = Array.of_list (split_ws op) in
+        match toks.(0) with
+        | "L" ->
+          let r = { toks; pos = 4 } in
+          let ast = rd_config r in
+          let (e, m') = init_from_yaml heur_bt cache_reset re_compiles !m ast in
+          m := m';
+          results := ("L " ^ (match e with None -> "ok" | Some e -> err_name e)) :: !results
+        | "Q" ->
+          let ty = bytes_of_string toks.(1) and name = bytes_of_hex toks.(2) in
+          let (res, m') = get_mapping uni_word re_match cache_get cache_add !m name ty in
+          m := m';
+          (match res with
+           | None -> results := "Q -" :: !results
+           | Some r -> (match List.nth_opt (!m).m_rules (int_of_nat r.mr_rule) with
+               | Some ru -> results := rule_string ru r :: !results
+               | None -> results := "Q BADRULE" :: !results))
+        | _ -> results := "BADOP" :: !results) ops
+    with Oracle_miss2 h -> results := ("ORACLE-MISS " ^ h) :: !results);
+    String.concat " | " (List.rev !results)
+
+let engine_mapper (cases : string) (hxout : string) =
+  let ora = read_lines hxout in
+  let i = ref 0 in
+  iter_lines cases (fun c ->
+    let o = ora.(!i) in incr i;
+    let otxt = match String.index_opt o '\t' with
+      | Some k -> String.sub o (k + 1) (String.length o - k - 1) | None -> "" in
+    print_endline (mapper_case c otxt))
+
+(* ---------------------------------------------------------------- model-internal self test:
+   fsm_get_mapping against first_match / most_specific on an exhaustive small scope
+   (a TEST of the theorem statements, not a proof) *)
+let selftest_fsm (maxrules : int) =
+  let b s = bytes_of_string s in
+  let comps = ["a"; "b"; "*"] in
+  let pats = List.concat_map (fun x -> [[x]]) comps
+    @ List.concat_map (fun x -> List.map (fun y -> [x; y]) comps) comps
+    @ List.concat_map (fun x -> List.concat_map (fun y -> List.map (fun z -> [x; y; z]) comps) comps) comps in
+  let types = [""; "counter"; "gauge"] in
+  let shapes = List.concat_map (fun p -> List.map (fun t -> (List.map b p, b t)) types) pats in
+  let ncomps = ["a"; "b"; "*"; "z"] in
+  let names = List.concat_map (fun x -> [[x]]) ncomps
+    @ List.concat_map (fun x -> List.map (fun y -> [x; y]) ncomps) ncomps
+    @ List.concat_map (fun x -> List.concat_map (fun y -> List.map (fun z -> [x; y; z]) ncomps) ncomps) ncomps
+    @ [["a"; ""]; [""]] in
+  let names = List.map (fun n -> b (String.concat "." n)) names in
+  let tys = [b "counter"; b "gauge"; b "observer"] in
+  let shapes_a = Array.of_list shapes in
+  let ns = Array.length shapes_a in
+  let count = ref 0 and bad = ref 0 in
+  let check (rules : grule list) =
+    let amb = has_ambiguous_wildcard (List.map (fun g -> g.g_fields) rules) in
+    List.iter (fun nm -> List.iter (fun ty ->
+      incr count;
+      let fields = split_byte c_dot nm in
+      let o = fsm_get_mapping rules true false nm ty in
+      if o <> first_match rules ty fields then (incr bad; if !bad < 5 then Printf.printf "ORDERED-MISMATCH rules=%d name=%s\n" (List.length rules) (string_of_bytes nm));
+      let u1 = fsm_get_mapping rules true true nm ty in
+      let sp = most_specific rules ty fields in
+      if u1 <> sp then (incr bad; if !bad < 5 then Printf.printf "UNORDERED-MISMATCH(bt) name=%s\n" (string_of_bytes nm));
+      if not amb then begin
+        let u0 = fsm_get_mapping rules false true nm ty in
+        if u0 <> sp then (incr bad; if !bad < 5 then Printf.printf "UNORDERED-MISMATCH(nobt) name=%s\n" (string_of_bytes nm)) end) tys) names in
+  let mk i (f, t) = { g_prio = nat_of_int i; g_fields = f; g_mmt = t } in
+  for i = 0 to ns - 1 do
+    check [mk 0 shapes_a.(i)];
+    if maxrules >= 2 then for j = 0 to ns - 1 do
+      check [mk 0 shapes_a.(i); mk 1 shapes_a.(j)];
+      if maxrules >= 3 && (i * 7 + j) mod 11 = 0 then for k = 0 to ns - 1 do
+        check [mk 0 shapes_a.(i); mk 1 shapes_a.(j); mk 2 shapes_a.(k)] done
+    done
+  done;
+  Printf.printf "selftest-fsm lookups=%d mismatches=%d\n" !count !bad
+
 let () =
   match Array.to_list Sys.argv with
   | _ :: "escape" :: cases :: _ -> engine_escape cases
   | _ :: "line" :: cases :: hxout :: _ -> engine_line cases hxout
+  | _ :: "mapper" :: cases :: hxout :: _ -> engine_mapper cases hxout
+  | _ :: "selftest-fsm" :: n :: _ -> selftest_fsm (int_of_string n)
   | _ -> prerr_endline "usage: runner <engine> <casefile> [hx output]"; exit 2
